@@ -203,7 +203,7 @@ class Pool:
             # feed idle workers
             for conn, w in list(self.workers.items()):
                 if not w['busy'] and not exhausted:
-                    if deadline is not None and time.monotonic() > deadline:
+                    if getattr(self, 'stop', False) or (deadline is not None and time.monotonic() > deadline):
                         exhausted = True
                         stopped_early = True
                         break
@@ -584,6 +584,8 @@ def run_check(mod, tier, seed, runs=None, jobs=None, wall=None, selfcheck=True, 
             agg['known_examples'].setdefault(v['class'], (idx, v.get('detail')))
         for v in real:
             agg['violations'].append((idx, v))
+        if real and os.environ.get('VERIF_STOP_ON_VIOLATION'):
+            pool.stop = True        # self-tests against changed trees: the first violation is enough
 
     pool = Pool(mod, tier, seed, jobs)
     deadline = (t0 + wall) if wall else None
